@@ -378,7 +378,7 @@ func (c *Canon) render(v ssa.Value, d int) string {
 			}
 			return "(" + k.String() + "+‹i›)"
 		}
-		carried, rl := c.rotExitPhi(v)
+		carried, _ := c.rotExitPhi(v)
 		if carried != nil && len(v.Edges) == 2 {
 			return c.termD(carried, d)
 		}
@@ -398,10 +398,16 @@ func (c *Canon) render(v ssa.Value, d int) string {
 			for i, e := range ph.Edges {
 				if ph == v && carried != nil {
 					// the pre-test and latch inputs together are the loop-carried value
-					if pr := ph.Block().Preds[i]; pr == rl.pre {
+					skip := false
+					for _, rx := range c.rotExits(v) {
+						if pr := ph.Block().Preds[i]; pr == rx.rl.pre {
+							skip = true
+						} else if pr == rx.rl.latch {
+							e = rx.carried
+						}
+					}
+					if skip {
 						continue
-					} else if pr == rl.latch {
-						e = carried
 					}
 				}
 				if p2, ok := e.(*ssa.Phi); ok {
